@@ -151,6 +151,17 @@ CLAIMED = {
             "flag forwarding of to_si/from_si are compared structurally.",
             "Trusts the partial evaluator (sa/peval.py) and the reference constants in sa/props/c17.py (taken from the property statement and "
             "EPANET's unit definitions); last-ulp rounding and numpy broadcasting semantics are not decided.", "DESIGN.md §4 C17"),
+    "C18": ("CFG dominance (label stores vs counter increments), def-use slice of the returned size table, classification of DataFrame row "
+            "accessors by the source of their index variable, symbolic path enumeration of the three criticality helpers, argument binding of "
+            "the helper calls",
+            "Decides FOUR STRUCTURAL CLAUSES ONLY of valve segmentation: every fresh segment label is the counter after an increment (positive "
+            "labels); the reported segment sizes are the value counts of the two returned label series; valve_segment_attributes addresses the "
+            "rows of the valve layer by valve number (label accessor with an index-label variable, positional accessor with a position) and keys "
+            "its result by valve number; each criticality value is 0 on every path where the node-side and link-side labels are equal, and the "
+            "three helpers receive the layer and the two labellings in their own parameter order.",
+            "Does NOT decide the central clause: that two elements share a label exactly when they can be joined without passing a valve (graph "
+            "reachability through networkx on every multigraph and valve layer), nor that num_surround counts exactly the bounding valves, nor the "
+            "demand/length ratios. A labelling bug inside the component passes is invisible to this check.", "DESIGN.md §4 C18, §9.9b"),
     "C19": ("formula extraction (AST -> sympy) of the length / elevation / coordinate expressions of _split_or_break_pipe compared as identities in "
             "the split fraction; argument binding through add_pipe's signature; must-precede ordering of refusals vs mutations; use-analysis of "
             "the caller's model parameter (copy isolation); guard-conjunct extraction for every remove_link / remove_node of _Skeletonize; "
@@ -173,9 +184,6 @@ CLAIMED = {
 }
 
 NOT_APPLICABLE = {
-    "C18": "Correctness of the valve-segment labelling as THE partition induced by the valve layer on every multigraph is a graph-reachability "
-           "fact computed through networkx/pandas at run time; no clause visible in the code's shape is a necessary condition that could be "
-           "checked without firing on behaviour-preserving rewrites of the labelling passes (DESIGN.md §5).",
 }
 
 PENDING_REASON = "static check for this property is specified in DESIGN.md §4 but not yet armed in this commit; not claimed until its rule module exists"
